@@ -12,7 +12,7 @@ from vlib.core import exc_site, fmt_exc
 PROPERTY = "C18"
 LEVEL = "exploration"
 CLAIM = {
-    "text": "Exploration by runtime monitoring on synthetic search-mode PSRFITS files (astropy.io.fits writer independent of the library): 3-5 sub-integrations of 8/16/50 samples, 4/8-bit, NPOL/POL_TYPE in {1 AA+BB, 2 AABB, 4 AABBCRCI, 4 STOKE}, ascending and descending DAT_FREQ, random per-row scales, offsets, weights (incl. zeros) and ZERO_OFF. For every file the reader accepts (opens and reads in full) the whole-file read is compared with a float64 evaluation of ((raw-zero_off)*scl+offs)*wts in descending-frequency order, every (start,nsamps) with the column slice of the whole read, read_plan for every gulp/skipback with the exactly-once stream check, collapse/bandpass/dedisperse/compute_stats with the same calls on a 32-bit SIGPROC file holding the same samples, and header fields must be plain numbers whose channel labels match the data order. Files whose CHAN_BW card disagrees with DAT_FREQ, and reductions with gulps {N/3, nsblk+3, 2*nsblk-1, N}, are included. Rounds 7-8 added: rows of 300-4000 samples (not powers of two) and a ZERO_OFF card written as an integer literal.",
+    "text": "Exploration by runtime monitoring on synthetic search-mode PSRFITS files (astropy.io.fits writer independent of the library): 3-5 sub-integrations of 8/16/50 samples, 4/8-bit, NPOL/POL_TYPE in {1 AA+BB, 2 AABB, 4 AABBCRCI, 4 STOKE}, ascending and descending DAT_FREQ, random per-row scales, offsets, weights (incl. zeros) and ZERO_OFF. For every file the reader accepts (opens and reads in full) the whole-file read is compared with a float64 evaluation of ((raw-zero_off)*scl+offs)*wts in descending-frequency order, every (start,nsamps) with the column slice of the whole read, read_plan for every gulp/skipback with the exactly-once stream check, collapse/bandpass/dedisperse/compute_stats with the same calls on a 32-bit SIGPROC file holding the same samples, and header fields must be plain numbers whose channel labels match the data order. Files whose CHAN_BW card disagrees with DAT_FREQ, and reductions with gulps {N/3, nsblk+3, 2*nsblk-1, N}, are included. Rounds 7-8 added: rows of 300-4000 samples (not powers of two) and a ZERO_OFF card written as an integer literal. Round 10 added: per-channel table cells (DAT_FREQ/DAT_WTS/DAT_SCL/DAT_OFFS) wider than the file's band.",
     "design_ref": "DESIGN.md section 3 (C18)",
     "note": "Trusted: astropy.io.fits as the file synthesiser, float64 evaluation of the documented scaling. Layouts the reader refuses (cannot open or cannot read in full) are outside the property's precondition and only counted.",
     "technique": "runtime monitoring: position-lattice differential against the whole-file read + independent float64 reference + cross-reader (PSRFITS vs SIGPROC) differential",
